@@ -1085,6 +1085,8 @@ def run(ctx):
     # the hypotheses of those theorems (acyclic dependency order, pure producers) checked on the real classes
     from props import lazy_static
     lazy_static.static_tie(ctx, rd)
+    from props import process_state_static
+    process_state_static.static_tie(ctx, rd)
 
     # -- model ties ------------------------------------------------------------------------------
     defaults_history(ctx, 20 if quick else 500)
